@@ -1,1 +1,173 @@
-fn main(){}
+//! The executable every generated monorail command is (hard-linked under the command's file
+//! name). It looks up its script by (argv[0], cwd) under $VERIF_HELPER_DIR, records `start`
+//! first and `end` last with CLOCK_MONOTONIC stamps (so the recorded interval lies inside the
+//! real one), and in between performs scripted steps: output chunks, sleeps, marker files,
+//! barriers, tripwires, exit code.
+use serde_json::{json, Value};
+use sha2::{Digest, Sha256};
+use std::io::Write;
+use std::path::{Path, PathBuf};
+
+fn now_ns() -> u64 {
+    let mut ts = libc::timespec {
+        tv_sec: 0,
+        tv_nsec: 0,
+    };
+    unsafe {
+        libc::clock_gettime(libc::CLOCK_MONOTONIC, &mut ts);
+    }
+    (ts.tv_sec as u64) * 1_000_000_000 + ts.tv_nsec as u64
+}
+
+fn key(argv0: &str, cwd: &str) -> String {
+    let mut h = Sha256::new();
+    h.update(argv0.as_bytes());
+    h.update([0u8]);
+    h.update(cwd.as_bytes());
+    format!("{:x}", h.finalize())[..24].to_string()
+}
+
+struct Ev {
+    file: std::fs::File,
+}
+impl Ev {
+    fn emit(&mut self, v: Value) {
+        let mut line = v.to_string();
+        line.push('\n');
+        let _ = self.file.write_all(line.as_bytes());
+        let _ = self.file.flush();
+    }
+}
+
+fn wait_for(paths: &[PathBuf], any: bool, timeout_ms: u64) -> bool {
+    let deadline = now_ns() + timeout_ms * 1_000_000;
+    loop {
+        let n = paths.iter().filter(|p| p.exists()).count();
+        if (any && n > 0) || (!any && n == paths.len()) {
+            return true;
+        }
+        if now_ns() > deadline {
+            return false;
+        }
+        std::thread::sleep(std::time::Duration::from_micros(500));
+    }
+}
+
+fn b64(s: &str) -> Vec<u8> {
+    // minimal base64 decoder (standard alphabet, padding optional)
+    let mut out = vec![];
+    let mut buf = 0u32;
+    let mut bits = 0;
+    for c in s.bytes() {
+        let v = match c {
+            b'A'..=b'Z' => c - b'A',
+            b'a'..=b'z' => c - b'a' + 26,
+            b'0'..=b'9' => c - b'0' + 52,
+            b'+' => 62,
+            b'/' => 63,
+            _ => continue,
+        } as u32;
+        buf = (buf << 6) | v;
+        bits += 6;
+        if bits >= 8 {
+            bits -= 8;
+            out.push(((buf >> bits) & 0xff) as u8);
+        }
+    }
+    out
+}
+
+fn main() {
+    let t_start = now_ns();
+    let args: Vec<String> = std::env::args().collect();
+    let argv0 = args.first().cloned().unwrap_or_default();
+    let cwd = std::env::current_dir()
+        .map(|p| p.display().to_string())
+        .unwrap_or_default();
+    let dir = match std::env::var("VERIF_HELPER_DIR") {
+        Ok(d) => PathBuf::from(d),
+        Err(_) => {
+            // not under a harness: behave like `true`
+            std::process::exit(0);
+        }
+    };
+    let k = key(&argv0, &cwd);
+    let pid = std::process::id();
+    let evdir = dir.join("events");
+    let _ = std::fs::create_dir_all(&evdir);
+    let file = std::fs::OpenOptions::new()
+        .create(true)
+        .append(true)
+        .open(evdir.join(format!("{}-{}.ndjson", k, pid)))
+        .expect("event file");
+    let mut ev = Ev { file };
+    let script: Option<Value> = std::fs::read_to_string(dir.join("scripts").join(format!("{}.json", k)))
+        .ok()
+        .and_then(|s| serde_json::from_str(&s).ok());
+    let id = script.as_ref().map(|s| s["id"].clone()).unwrap_or(Value::Null);
+    ev.emit(json!({"k": "start", "ts": t_start, "pid": pid, "key": k, "id": id, "argv": args, "cwd": cwd,
+                   "exe": argv0, "scripted": script.is_some()}));
+    let markers = dir.join("markers");
+    let _ = std::fs::create_dir_all(&markers);
+    let _ = std::fs::write(markers.join(format!("started-{}", k)), b"");
+    let mut code = 0i32;
+    if let Some(s) = &script {
+        let resolve = |p: &str| -> PathBuf {
+            if Path::new(p).is_absolute() {
+                PathBuf::from(p)
+            } else {
+                markers.join(p)
+            }
+        };
+        for step in s["steps"].as_array().cloned().unwrap_or_default() {
+            match step["op"].as_str().unwrap_or("") {
+                "out" => {
+                    let data = if let Some(t) = step["text"].as_str() {
+                        t.as_bytes().to_vec()
+                    } else {
+                        b64(step["b64"].as_str().unwrap_or(""))
+                    };
+                    if step["stream"].as_str() == Some("stderr") {
+                        let mut e = std::io::stderr();
+                        let _ = e.write_all(&data);
+                        let _ = e.flush();
+                    } else {
+                        let mut o = std::io::stdout();
+                        let _ = o.write_all(&data);
+                        let _ = o.flush();
+                    }
+                }
+                "sleep" => {
+                    std::thread::sleep(std::time::Duration::from_millis(step["ms"].as_u64().unwrap_or(0)));
+                }
+                "touch" => {
+                    let _ = std::fs::write(resolve(step["path"].as_str().unwrap_or("x")), b"");
+                }
+                "wait" => {
+                    // wait until all (or any) of the marker files exist
+                    let paths: Vec<PathBuf> = step["paths"]
+                        .as_array()
+                        .cloned()
+                        .unwrap_or_default()
+                        .iter()
+                        .map(|p| resolve(p.as_str().unwrap_or("")))
+                        .collect();
+                    let any = step["any"].as_bool().unwrap_or(false);
+                    let ok = wait_for(&paths, any, step["timeout_ms"].as_u64().unwrap_or(10_000));
+                    if !ok {
+                        let kind = step["on_timeout"].as_str().unwrap_or("wait_timeout");
+                        ev.emit(json!({"k": kind, "ts": now_ns(), "key": k, "id": id}));
+                    }
+                }
+                "exit" => {
+                    code = step["code"].as_i64().unwrap_or(0) as i32;
+                    break;
+                }
+                _ => {}
+            }
+        }
+    }
+    let _ = std::fs::write(markers.join(format!("ended-{}", k)), b"");
+    ev.emit(json!({"k": "end", "ts": now_ns(), "key": k, "id": id, "code": code}));
+    std::process::exit(code);
+}
